@@ -245,6 +245,8 @@ def entries():
     add("Quire(lmbda=0.5,rbf)", "Quire", {"lmbda": 0.5, "metric": "rbf", "metric_dict": {"gamma": 0.5}},
         needs_classes=True, model=None, rows=False, arbitrary_idx=False, samplewise=True, cost=3)
     add("BatchBALD(n_MC_samples=5)", "BatchBALD", {"n_MC_samples": 5}, model="ensemble", cost=3)
+    # fewer Monte-Carlo samples than ensemble members (the sampled joint entropy then has no sample per member)
+    add("BatchBALD(n_MC_samples=2)", "BatchBALD", {"n_MC_samples": 2}, model="ensemble", cost=3)
     add("GreedyBALD(eps=1e-3)", "GreedyBALD", {"eps": 1e-3}, model="ensemble", samplewise=True, cost=3)
     add("QueryByCommittee(KL_divergence,eps=1e-3)", "QueryByCommittee", {"method": "KL_divergence", "eps": 1e-3},
         model="ensemble", samplewise=True, cost=3)
